@@ -9,4 +9,8 @@ Init == /\ mask \in Masks(NP, NP) /\ (DiagOnly => HasDiag(NP, mask)) /\ rev \in 
 A == MkCrs(NP, NP, mask, 0, FALSE)
 Next == pc = "in" /\ pc' = "cm" /\ out' = CMRun(A, rev) /\ UNCHANGED <<mask, rev>>
 PermInv == pc = "cm" => IsPermutation(out.perm, NP) /\ ~out.exc
+\* the level-set number stored per node ranges over 1..n (a chain started at its end has n level sets): it is a
+\* number, not a flag - storage narrower than the node count cannot hold it
+LevelRange == pc = "cm" => out.levels >= 1 /\ out.levels <= NP + 1
+ChainLevels == (pc = "cm" /\ \A i \in 0..(NP - 1) : RowCols(A, i) = {j \in 0..(NP - 1) : j - i \in {-1, 0, 1}}) => out.levels >= NP
 =============================================================================
